@@ -539,6 +539,8 @@ func (a *copyAnalysis) checkStructResult(res ast.Expr, rs *ast.ReturnStmt, st *t
 		}
 		if id, ok := d.(*ast.Ident); ok && info.ObjectOf(id) == a.recv {
 			whole = true
+		} else if call, isNew := ast.Unparen(def).(*ast.CallExpr); isNew && v != nil && isBuiltinCall(info, call, "new") && len(call.Args) == 1 && types.Identical(info.TypeOf(call.Args[0]), baseT) {
+			// new(T): an empty value filled by the stores that follow
 		} else if v != nil {
 			if _, isCall := ast.Unparen(def).(*ast.CallExpr); isCall {
 				r.Add("E5.shape", fn.Name, "result", p.Pos(rs), Undecided, "result built by a call: "+exprStr(def), false)
@@ -547,6 +549,12 @@ func (a *copyAnalysis) checkStructResult(res ast.Expr, rs *ast.ReturnStmt, st *t
 			r.Add("E5.shape", fn.Name, "result", p.Pos(rs), Undecided, "cannot resolve how the result is built: "+exprStr(def), false)
 			return
 		}
+	} else if v != nil && v.Parent() == fn.Pkg.Types.Scope() && needsCopy(info.TypeOf(res), 0) {
+		r.Add("E5.b-alias", fn.Name, "result "+exprStr(res), p.Pos(rs), Violated,
+			"Copy returns the package-level variable "+v.Name()+" (or its address): every caller receives the same storage, so a write through one copy shows in all others", true)
+		return
+	} else if v != nil && a.declaredEmpty(v, baseT) {
+		// var x T: an empty value filled by the stores that follow
 	} else {
 		r.Add("E5.shape", fn.Name, "result", p.Pos(rs), Undecided, "cannot resolve the returned value "+exprStr(res), false)
 		return
@@ -633,6 +641,37 @@ func (a *copyAnalysis) checkStructResult(res ast.Expr, rs *ast.ReturnStmt, st *t
 			if a.onlyGuardedBySourceField(x.node, name) {
 				covered, why = true, "assigned whenever the source field is non-empty (zero value otherwise)"
 				break
+			}
+		}
+		if !covered && a.recv != nil {
+			// this return is taken only when the source field is nil / empty: the zero value
+			// the result has for it is the copy
+			if fn.GuardsAt(rs).Holds(func(at *Atom) bool {
+				if at.E == nil {
+					return false
+				}
+				be, ok := ast.Unparen(at.E).(*ast.BinaryExpr)
+				if !ok {
+					return false
+				}
+				isSrc := func(e ast.Expr) bool {
+					sel, ok := ast.Unparen(e).(*ast.SelectorExpr)
+					if !ok || sel.Sel.Name != name {
+						return false
+					}
+					id, ok := ast.Unparen(sel.X).(*ast.Ident)
+					return ok && info.ObjectOf(id) == a.recv
+				}
+				if (be.Op == token.EQL) == at.Pol && (be.Op == token.EQL || be.Op == token.NEQ) {
+					if (isSrc(be.X) && isNilIdent(info, be.Y)) || (isSrc(be.Y) && isNilIdent(info, be.X)) {
+						return true
+					}
+				}
+				return false
+			}) {
+				if _, nilable := f.Type().Underlying().(*types.Basic); !nilable {
+					covered, why = true, "returned only when the source field is nil (zero value)"
+				}
 			}
 		}
 		if !covered {
@@ -1008,4 +1047,25 @@ func (a *copyAnalysis) checkContainerResult(res ast.Expr, rs *ast.ReturnStmt, ba
 	} else {
 		r.Add("E5.b-alias", fn.Name, "container result", p.Pos(rs), OK, "fresh container; elements are copies or hold no containers", true)
 	}
+}
+
+// declaredEmpty: v is declared `var v T` (no initial value) and never assigned as a whole.
+func (a *copyAnalysis) declaredEmpty(v types.Object, baseT types.Type) bool {
+	as := a.fn.Assignments(v)
+	n := 0
+	for _, x := range as {
+		switch s := x.(type) {
+		case *ast.ValueSpec:
+			if len(s.Values) != 0 {
+				return false
+			}
+			n++
+		case *ast.UnaryExpr:
+			// &v: returned by address
+		default:
+			return false
+		}
+	}
+	t := v.Type()
+	return n == 1 && types.Identical(t, baseT)
 }
